@@ -64,6 +64,29 @@ func checkRequestRaw(t *rh.Table, method, path string, rawMask uint64) (msg stri
 	return "", tr
 }
 
+// checkForwarded serves a request whose handler dispatches a second request on the same Mux before it looks at its
+// own Store (an internal forward): each of the two ServeHTTP calls is a request of its own and must be dispatched and
+// bound as if the other did not exist.
+func checkForwarded(t *rh.Table, method, path, innerMethod, innerPath string) string {
+	outer, inner, po, pi := t.ServeForwarding(method, path, innerMethod, innerPath)
+	if po != nil || pi != nil {
+		return fmt.Sprintf("ServeHTTP panicked (outer: %v, forwarded: %v)", po, pi)
+	}
+	for _, x := range []struct {
+		what, m, p string
+		got        rh.Obs
+	}{{"outer request", method, path, outer}, {"forwarded request", innerMethod, innerPath, inner}} {
+		if x.got.Calls != 1 {
+			return fmt.Sprintf("%s %s %q: handler invocations = %d, want exactly 1", x.what, x.m, x.p, x.got.Calls)
+		}
+		want, _ := rh.Expect(t.Routes, t.Names, x.m, x.p)
+		if d := rh.Diff(x.got, want); d != "" {
+			return fmt.Sprintf("%s %s %q (outer %s %q forwards to %s %q inside its handler): %s\n  got:  %s\n  want: %s", x.what, x.m, x.p, method, path, innerMethod, innerPath, d, x.got.String(), want.String())
+		}
+	}
+	return ""
+}
+
 func TestRegression(t *testing.T) {
 	mk := func(specs ...string) *rh.Table {
 		var routes []rm.Route
@@ -408,6 +431,15 @@ func TestGenerated(t *testing.T) {
 			if rapid.IntRange(0, 3).Draw(t, "withRawPath") == 0 {
 				rawMask = rapid.Uint64().Draw(t, "rawMask")
 				ev.Label("req:with_RawPath_spelling")
+			}
+			if strings.HasPrefix(p, "/") && rawMask == 0 && rapid.IntRange(0, 4).Draw(t, "forwards") == 0 {
+				// the handler of this request forwards another request through the same Mux before it reads its own Store
+				m2 := rapid.SampledFrom(reqMethods).Draw(t, "fwdmethod")
+				p2 := genRequestPath(routes).Filter(func(s string) bool { return strings.HasPrefix(s, "/") }).Draw(t, "fwdpath")
+				if msg := checkForwarded(tb, m, p, m2, p2); msg != "" {
+					t.Fatalf("table %s: %s", rh.RenderTable(routes), msg)
+				}
+				ev.Label("req:handler_forwards_another_request_through_the_same_Mux")
 			}
 			msg, tr := checkRequestRaw(tb, m, p, rawMask)
 			if msg != "" {
